@@ -172,12 +172,12 @@ def c01(report, rng, tier, findings):
 # ------------------------------------------------------------------------------------------- C02
 
 def c02(report, rng, tier, findings):
-    n = n_cases(tier, 360, 5000)
+    n = n_cases(tier, 700, 6000)
     cases = []
     for i in range(n):
         nv = rng.choice((2, 2, 3, 3, 4)) if tier != 'quick' else rng.choice((2, 2, 3))
         cfg = gen.Cfg(n_vars=(nv, nv), n_objs=(2, 4 if nv <= 3 else 3), depth=2 if nv >= 3 else 3,
-                      select_terms=0.2, preds=True, select_all=0.35)
+                      select_terms=0.2, preds=True, select_all=0.35, single_top=0.45)
         cases.append(gen.gen_case(rng, cfg, f'c{i}'))
     report.rule = ("random queries over 2-4 variables (30% sharing one domain list: self-joins), conditions over random "
                    "variable subsets, 1..n variables selected in random order, attribute expressions among the selected; "
